@@ -89,6 +89,9 @@ type Layer struct {
 	CfgFilter func(pc PCfg) bool
 	// Geos overrides the geometry grid built from BufSizes.
 	Geos []lz.BufConfig
+	// CfgsFn, if set, supplies the configurations (of all kinds) instead of
+	// the product geometry x search parameters.
+	CfgsFn func() []PCfg
 }
 
 func (l Layer) describe() map[string]any {
@@ -112,6 +115,14 @@ func parserShards(prop string, layers []Layer, mkOracle func() *Oracle) []engine
 		}
 		for _, kind := range l.Kinds {
 			cfgs := Configs(kind, geo, l.Level)
+			if l.CfgsFn != nil {
+				cfgs = nil
+				for _, c := range l.CfgsFn() {
+					if c.Kind == kind {
+						cfgs = append(cfgs, c)
+					}
+				}
+			}
 			if l.CfgFilter != nil {
 				var f []PCfg
 				for _, c := range cfgs {
@@ -280,5 +291,22 @@ func init() {
 	registerParserCheck("C02", FullMenu, OracleC02, ruleParser, "sequences well-formed and inside the window")
 	registerParserCheck("C03", FullMenu, OracleC03, ruleParser, "Parse accounting and progress")
 	registerParserCheck("C14", FullMenu, OracleC14, ruleParser, "Parse(nil) consumes input like a normal Parse")
-	registerParserCheck("C19", FullMenu, OracleC19, ruleParser, "matches are maximal (clauses a and b; the run clause has its own layers)")
+	registerParserCheck("C19", FullMenu, OracleC19, ruleParser, "matches are maximal (clauses a and b) and byte runs are compressed (run clause, own layers: run inputs, BlockSize 32/33/40, WindowSize 1/2/3/B, tiny and default-sized tables)")
+	c19 := Registry["C19"]
+	maxShards, maxBounds := c19.Shards, c19.Bounds
+	c19.Shards = func(tier string) []engine.Shard {
+		return append(maxShards(tier), parserShards("C19", runLayers(tier), OracleC19Run)...)
+	}
+	c19.Bounds = func(tier string) map[string]any {
+		m := maxBounds(tier)
+		m["run_clause_layers"] = layerBounds(runLayers(tier))["layers"]
+		return m
+	}
+	c19.Replay = func(raw json.RawMessage, col *engine.Collector) error {
+		// a recorded case is replayed under both oracles; only the one that reported it can fire again
+		if err := replayParser("C19", raw, OracleC19, col); err != nil {
+			return err
+		}
+		return replayParser("C19", raw, OracleC19Run, col)
+	}
 }
